@@ -6,11 +6,9 @@ open EzdxfVerif EzdxfVerif.Encoding Proto
 namespace C09Driver
 
 def G := Gen.EncodingTables.handlerFmt
-def U : UniTab := Gen.EncodingTables.uniTab
 
 def showErr : PyErr → String
   | .unicodeEncodeError => "UnicodeEncodeError" | .valueError => "ValueError"
-  | .overflowError => "OverflowError"
 
 def name (s : String) : Str := s.toList.map Char.toNat
 
@@ -36,11 +34,6 @@ def showBytes (r : Except PyErr Bytes) : String :=
   | .ok b => "ok " ++ showNats b
   | .error e => "err " ++ showErr e
 
-def showStr (r : Except PyErr Str) : String :=
-  match r with
-  | .ok b => "ok " ++ showNats b
-  | .error e => "err " ++ showErr e
-
 def fmtOf (f : String) : Option Fmt :=
   if f = "src" then some G else if f = "fixed" then some fixedFmt
   else if f = "legacy" then some legacyFmt else none
@@ -62,11 +55,11 @@ def step (line : String) : String :=
     | _, _ => "bad-op"
   | ["rt", f, c, s] => match fmtOf f, codecOf c "", parseNats s with
     | some f, some c, some t => match encode c f t with
-      | .ok b => showStr (decodeDxfUnicode U (c.dec b))
+      | .ok b => "ok " ++ showNats (decodeDxfUnicode (c.dec b))
       | .error e => "encerr " ++ showErr e
     | _, _, _ => "bad-op"
   | ["undxf", s] => match parseNats s with
-    | some t => showStr (decodeDxfUnicode U t) | none => "bad-op"
+    | some t => "ok " ++ showNats (decodeDxfUnicode t) | none => "bad-op"
   | ["has", s] => match parseNats s with
     | some t => if hasDxfUnicode t then "1" else "0" | none => "bad-op"
   | ["hasmif", s] => match parseNats s with
@@ -74,20 +67,9 @@ def step (line : String) : String :=
   | ["split", s] => match parseNats s with
     | some t => ";".intercalate ((reSplit [] t).map showNats) | none => "bad-op"
   | ["recover", s] => match parseNats s with
-    | some t => match recoverStr U t with
-      | .ok (.text r) => "ok " ++ showNats r
-      | .ok .mif => "mif"
-      | .error e => "err " ++ showErr e
-    | none => "bad-op"
-  | ["int16", s] => match parseNats s with
-    | some t => match pyInt16 U t with
-      | .ok n => "ok " ++ toString n
-      | .error e => "err " ++ showErr e
-    | none => "bad-op"
-  | ["chr", n] => match parseInt n with
-    | some n => match pyChr n with
-      | .ok c => "ok " ++ toString c
-      | .error e => "err " ++ showErr e
+    | some t => match recoverStr t with
+      | .text r => "ok " ++ showNats r
+      | .mif => "mif"
     | none => "bad-op"
   | ["toenc", s] => match parseNats s with
     | some t => showNats (toencoding Gen.EncodingTables.codepageToEncoding t) | none => "bad-op"
